@@ -13,6 +13,11 @@
 //	                                            (where the harness puts the file to be renamed / linked: decided by the caller);
 //	                                            prints every host entry created / removed / changed by the operation
 //	c13obs localfs <maxseg>                     every localfs method over a temp tree with sentinels
+//	c13obs localfs-base <maxseg> <k>            the same for the k-th SPELLING of the base (relative, ".", "./", "a/..", doubled
+//	                                            and trailing separators, a symbolic link as working directory ...) inside a
+//	                                            chroot jail: the filesystem must be rooted at the directory the text names
+//	c13obs scriptops [layout [call|#k/n [p1 [p2]]]]  the script-level builtins with path arguments under a VirtualOS over real
+//	                                            trees, in two worlds that differ only OUTSIDE the mount sources (see scriptops.go)
 //	c13obs lfshist                              histories of localfs operations (stdin, one per line: ops separated by ';',
 //	                                            op = Name:hex(arg1)[:hex(arg2)]) on a fresh sentinel tree each; after EVERY
 //	                                            operation: where does every symbolic link inside the base physically lead,
@@ -32,6 +37,7 @@ import (
 	"sort"
 	"strconv"
 	"strings"
+	"syscall"
 
 	ros "github.com/risor-io/risor/os"
 	"github.com/risor-io/risor/os/localfs"
@@ -432,21 +438,65 @@ func hostRootState() string {
 	return strings.Join(s, ",")
 }
 
-func localfsRun(maxSeg int) int {
+// baseLayout: one SPELLING of the base directory of a rooted filesystem.  Inside the jail (a chroot into a scratch
+// directory, so that "the host" is the scratch tree and an unrooted filesystem cannot reach the machine) the base is
+// always the directory /base; chdir is the working directory of the process, base the text handed to WithBase.
+type baseLayout struct{ name, chdir, base string }
+
+var baseLayouts = []baseLayout{
+	{"dot", "/base", "."},
+	{"dot-slash", "/base", "./"},
+	{"dot-slash-dot", "/base", "./."},
+	{"sub-up", "/base", "a/.."},
+	{"sub-sub-up", "/base", "a/b/../../"},
+	{"rel", "/", "base"},
+	{"rel-dot-slash", "/", "./base/"},
+	{"rel-doubled", "/", "base//"},
+	{"rel-updown", "/", "cwd/../base"},
+	{"rel-from-sibling", "/cwd", "../base"},
+	{"abs-doubled", "/cwd", "//base//"},
+	{"abs-dot", "/cwd", "/base/."},
+	{"abs-updown", "/cwd", "/outside/../base/"},
+	{"link-cwd", "/linkbase", "."},
+	{"link-cwd-slash", "/linkbase", "./"},
+	{"abs", "/cwd", "/base"},
+}
+
+func localfsRun(maxSeg int, layout *baseLayout) int {
 	top, err := os.MkdirTemp("", "verif-c13-")
 	if err != nil {
 		fmt.Println("ERROR mkdirtemp", err)
 		return 2
 	}
 	defer os.RemoveAll(top)
+	if layout != nil {
+		// jail: from here on "/" is the scratch directory
+		if err := syscall.Chroot(top); err != nil {
+			fmt.Printf("NOJAIL\t%v\n", err)
+			return 0
+		}
+		os.Chdir("/")
+		top = "/"
+		os.Setenv("TMPDIR", "/tmp")
+		os.MkdirAll("/tmp", 0o777)
+	}
 	base := filepath.Join(top, "base")
 	cwd := filepath.Join(top, "cwd")
 	outside := filepath.Join(top, "outside")
+	chdir := cwd
+	baseText := base
+	if layout != nil {
+		chdir, baseText = layout.chdir, layout.base
+		os.Symlink("base", "/linkbase")
+	}
 	reset := func() {
 		os.RemoveAll(base)
 		os.MkdirAll(filepath.Join(base, "a", "b"), 0o755)
 		os.WriteFile(filepath.Join(base, "a", "f"), []byte("inside"), 0o644)
 		os.WriteFile(filepath.Join(base, "b"), []byte("inside-b"), 0o644)
+		if layout != nil {
+			os.Chdir(chdir) // the working directory may be the base itself, which was just replaced
+		}
 	}
 	os.MkdirAll(cwd, 0o755)
 	os.MkdirAll(filepath.Join(outside, "a"), 0o755)
@@ -461,9 +511,19 @@ func localfsRun(maxSeg int) int {
 		os.WriteFile(filepath.Join(top, sib, "secret"), []byte("secret-sibling"), 0o644)
 		os.WriteFile(filepath.Join(top, sib, "a", "f"), []byte("secret-sibling-a"), 0o644)
 	}
-	os.Chdir(cwd)
-	lfs, err := localfs.New(context.Background(), localfs.WithBase(base))
+	reset()
+	if err := os.Chdir(chdir); err != nil {
+		fmt.Println("ERROR chdir", err)
+		return 2
+	}
+	lfs, err := localfs.New(context.Background(), localfs.WithBase(baseText))
 	if err != nil {
+		if layout != nil {
+			// a spelling the constructor refuses roots nothing: nothing to judge
+			fmt.Printf("REFUSED\t%s\t%v\n", layout.name, err)
+			fmt.Printf("SUMMARY\tevals=0\trejected=0\tviolations=0\tpaths=0\tops=0\n")
+			return 0
+		}
 		fmt.Println("ERROR localfs.New", err)
 		return 2
 	}
@@ -565,7 +625,15 @@ func localfsRun(maxSeg int) int {
 						os.WriteFile(filepath.Join(outside, "a", "f"), []byte("secret-a"), 0o644)
 						os.WriteFile(filepath.Join(top, "a"), []byte("sentinel-a"), 0o644)
 						os.WriteFile(filepath.Join(top, "b"), []byte("sentinel-b"), 0o644)
+						os.MkdirAll(cwd, 0o755)
 						os.WriteFile(filepath.Join(cwd, "a"), []byte("cwd-a"), 0o644)
+						if layout != nil {
+							os.MkdirAll("/tmp", 0o777)
+							if t, e := os.Readlink("/linkbase"); e != nil || t != "base" {
+								os.RemoveAll("/linkbase")
+								os.Symlink("base", "/linkbase")
+							}
+						}
 						for _, sib := range []string{"basex", "base-old", "base.bak"} {
 							os.RemoveAll(filepath.Join(top, sib))
 							os.MkdirAll(filepath.Join(top, sib, "a"), 0o755)
@@ -998,8 +1066,25 @@ func main() {
 	case "localfs":
 		n, _ := strconv.Atoi(os.Args[2])
 		w.Flush()
-		rc := localfsRun(n)
+		rc := localfsRun(n, nil)
 		os.Exit(rc)
+	case "localfs-layouts":
+		for _, l := range baseLayouts {
+			fmt.Fprintf(w, "%s\t%s\t%s\n", l.name, l.chdir, l.base)
+		}
+	case "localfs-base":
+		// the same run for one SPELLING of the base (index into baseLayouts), inside a chroot jail
+		n, _ := strconv.Atoi(os.Args[2])
+		k, _ := strconv.Atoi(os.Args[3])
+		w.Flush()
+		if k < 0 || k >= len(baseLayouts) {
+			os.Exit(2)
+		}
+		os.Exit(localfsRun(n, &baseLayouts[k]))
+	case "scriptops":
+		// c13obs scriptops [layout [call | #k/n [p1 [p2]]]]
+		w.Flush()
+		os.Exit(scriptOpsRun(os.Args[2:]))
 	case "lfshist":
 		w.Flush()
 		os.Exit(lfsHistories())
